@@ -6,7 +6,8 @@ EXPLANATION = (
     "D1 SummaryVariable::from_str and Display tables are mutually inverse and equal the 23 pkg_summary names; "
     "D2 variant declaration order = spec order, Ord derived, every formatter write in Display for Summary lies under a loop ordered by SummaryVariable (a BTreeMap keyed by it, or a Vec of the (key, value) pairs collected from entries as they are and sorted by key in SummaryVariable's own order, untouched otherwise) and never under a HashMap-driven loop; "
     "D3 each write uses the template {key}={value}\\n bound to (key, value); "
-    "D4 kind consistency: only insert_or_update/insert_or_push mutate `entries`, every writer/reader call site pairs a variable with its spec kind, each public getter/setter/pusher addresses the variable its name denotes")
+    "D4 kind consistency: only insert_or_update/insert_or_push mutate `entries`, every writer/reader call site pairs a variable with its spec kind, each public getter/setter/pusher addresses the variable its name denotes"
+    " D1-PARSE-LINES the parse half of the round trip: C08's D4-LINES / D4-FIRSTSEP / D4-KEY / D1-DISPATCH / D1-EVERY-LINE verdicts are shared instances; SummaryValue::push only appends (D4-PRIMITIVE#append-only).")
 NOT_DECIDED = [
     "that i64 and CR/LF-free text survive Display -> lines() -> splitn (std semantics)",
     "byte-for-byte equality of printed canonical entries (follows from D1-D3 + std formatting)",
@@ -279,3 +280,7 @@ def run(ctx):
 
     # the primitives themselves (shared with C08: last-value / append-in-order)
     primitives(ctx, "D4-PRIMITIVE")
+
+    # ---- D1-PARSE-LINES: the parse half of the round trip: which text is split into lines and at which '=' (C08's D4 rules), which setter
+    #      each variable goes to and how an integer is read (C08's D1-DISPATCH), that no line is passed over (D1-EVERY-LINE): shared verdicts
+    share_rules(ctx, "C08", ("D4-LINES", "D4-FIRSTSEP", "D4-KEY", "D1-DISPATCH", "D1-EVERY-LINE"), "D1-PARSE-LINES", "<summary::Summary as std::str::FromStr>::from_str", 20)
